@@ -16,13 +16,13 @@ use crate::refmodel::*;
 use crate::scratch;
 
 pub fn meta(id: &'static str) -> Meta {
-    let common = "references of 1..3 contigs given to the real RefSka::new + map + write_aln/write_vcf (each run in a forked child), samples presented as forged dictionaries so that ANY presence pattern and middle byte can occur. Level A (writer state machine), k=5 and 7: contig lengths from {1, h, k-1, k, k+1, k+2, 2k-1, 2k, 2k+1, 3k} (all single contigs, all ordered pairs, a declared set of triples incl. contigs without k-mers before/between/after others); for each reference EVERY subset of its k-mer centres as 'matched' (references with more than 12 centres: every subset of every window of 10 consecutive centres, rest all-matched or all-unmatched), middle byte cycling through reference base / other base / ambiguity code / N, eight samples per run (one pattern per sample column), both strand modes, mask flags. Level B (reference handling), k=5: every reference over {A,C,G,T,N} up to length 7 (thorough 8) mapped against itself, case variants, every single substitution and every deletion of 1..k letters of a repeat-free reference, reverse-complemented and swapped contigs, planted repeats (same/opposite strand, across contigs, overlapping, behind a contig shorter than k) under all four mask-flag combinations.";
+    let common = "references of 1..3 contigs given to the real RefSka::new + map + write_aln/write_vcf (each run in a forked child), samples presented as forged dictionaries so that ANY presence pattern and middle byte can occur. Level A (writer state machine), k=5 and 7: contig lengths from {1, h, k-1, k, k+1, k+2, 2k-1, 2k, 2k+1, 3k} (all single contigs, all ordered pairs, a declared set of triples incl. contigs without k-mers before/between/after others); for each reference EVERY subset of its k-mer centres as 'matched' (references with more than 12 centres: every subset of every window of 10 consecutive centres, rest all-matched or all-unmatched), middle byte cycling through reference base / other base / ambiguity code / N, eight samples per run (one pattern per sample column), both strand modes, mask flags. Level B (reference handling), k=5: every reference over {A,C,G,T,N} up to length 7 (thorough 8) mapped against itself, case variants, every single substitution and every deletion of 1..k letters of a repeat-free reference, reverse-complemented and swapped contigs, planted repeats (same/opposite strand, across contigs, overlapping, behind a contig shorter than k) under all four mask-flag combinations; an IUPAC code (either case) at every position of a reference contig, against samples that carry each of the four bases there with and without an adjacent SNP.";
     if id == "C04" {
         Meta {
             id: "C04",
             level: "model_checking",
             rule: format!("bounded exhaustive exploration of the alignment writer's operation sequences: {common} Oracle: the three-way case distinction of the statement implemented literally (matched centre -> strand-corrected middle base; within (k-1)/2 of a matched centre on the same contig -> upper-case reference base; else '-'), then the two masks. States = distinct (reference layout, matched-centre pattern) inputs driven through the writer; transitions = write_split_kmer calls implied (matched centres); every run is the real implementation, so each explored sequence is validated against it."),
-            assumptions: vec!["a map in which no k-mer matches may be refused or print all gaps; a reference without any k-mer is refused".into(), "symbols outside A/C/G/T/N in references are outside the alphabet".into()],
+            assumptions: vec!["a map in which no k-mer matches may be refused or print all gaps; a reference without any k-mer is refused".into(), "a reference letter outside A/C/G/T/N must be shown as itself (upper-case) where the reference base is shown; how it is read inside a k-mer is not defined by the tool, so any consistent reading (A, C, G, T or not-a-base, the same for the whole run) is accepted".into()],
             exhaustive_when_uncapped: true,
         }
     } else {
@@ -99,14 +99,42 @@ fn split_contigs(seq: &[u8], reference: &[Vec<u8>]) -> Option<Vec<Vec<u8>>> {
 /// C04 verdict for one case; returns Ok(real alignment per sample, if produced)
 pub fn check_aln(c: &MapCase) -> Result<Option<Vec<Vec<u8>>>, String> {
     let (path, _) = ref_file(c);
-    let (want, any) = model_map(&c.reference, &dicts_of(&c.table), c.table.k, c.table.rc, c.ambig_mask, c.repeat_mask);
-    let ref_has_kmers = c.reference.iter().any(|s| !windows(s, c.table.k).is_empty());
+    // Reference letters outside A/C/G/T/N: the statement fixes how they are *shown* (upper-case reference base),
+    // not how they are read as k-mer letters. Every consistent reading (one of A, C, G, T or "not a base" per kind
+    // of letter, the same for the whole run) is accepted; the first one that reproduces the real output is used.
+    let mut kinds: Vec<u8> = c.reference.iter().flatten().map(|b| b.to_ascii_uppercase()).filter(|b| !matches!(*b, b'A' | b'C' | b'G' | b'T' | b'N')).collect();
+    kinds.sort();
+    kinds.dedup();
+    if kinds.len() > 2 {
+        return Err("MACHINERY more than two kinds of extra reference letters".into());
+    }
+    let readings: Vec<Vec<u8>> = match kinds.len() {
+        0 => vec![vec![]],
+        1 => b"ACGTN".iter().map(|x| vec![*x]).collect(),
+        _ => b"ACGTN".iter().flat_map(|x| b"ACGTN".iter().map(move |y| vec![*x, *y])).collect(),
+    };
+    let dicts = dicts_of(&c.table);
+    let read_as = |reading: &Vec<u8>| -> Vec<Vec<u8>> {
+        c.reference.iter().map(|s| s.iter().map(|b| match kinds.iter().position(|x| *x == b.to_ascii_uppercase()) { Some(i) => reading[i], None => *b }).collect()).collect()
+    };
+    let mut cands: Vec<(Vec<Vec<Vec<u8>>>, bool, Vec<Vec<u8>>)> = Vec::new();
+    for r in &readings {
+        let kref = read_as(r);
+        let (w, a) = model_map_disp(&kref, &c.reference, &dicts, c.table.k, c.table.rc, c.ambig_mask, c.repeat_mask);
+        cands.push((w, a, kref));
+    }
+    let ref_has_kmers = cands.iter().any(|(_, _, kref)| kref.iter().any(|s| !windows(s, c.table.k).is_empty()));
+    let any = cands.iter().any(|(_, a, _)| *a);
+    let (mut want, _, _) = cands[0].clone();
     let r = map_any(&path, &c.table, c.ambig_mask, c.repeat_mask, false);
     match r {
         ChildResult::Ok(out) => {
             let (names, seqs) = real::parse_fasta(&out);
             if names != c.table.names {
                 return Err(format!("sample names/order {names:?}, expected {:?}", c.table.names));
+            }
+            if let Some((w, _, _)) = cands.iter().find(|(w, _, _)| w.iter().map(|a| a.concat()).collect::<Vec<Vec<u8>>>() == seqs) {
+                want = w.clone();
             }
             let want_cat: Vec<Vec<u8>> = want.iter().map(|a| a.concat()).collect();
             if seqs != want_cat {
@@ -485,6 +513,42 @@ pub fn run(ctx: &Ctx, rep: &mut Report, id: &str) {
                     if ctx.expired() {
                         d.rep.capped = true;
                         break;
+                    }
+                }
+            }
+            // a reference letter outside A/C/G/T/N (an IUPAC code, either case) at every position: shown as the
+            // upper-case reference letter wherever it is a flank, whatever base the tool reads it as
+            let codes: &[u8] = if thorough { b"RYKMSWBDHVrw" } else { b"RKSy" };
+            for code in codes {
+                for p in 0..g1.len() {
+                    idx += 1;
+                    if !ctx.mine(idx) || d.rep.capped {
+                        continue;
+                    }
+                    let mut reference = vec![g1.clone(), g2.clone()];
+                    reference[0][p] = *code;
+                    let q = if p + 1 < g1.len() { p + 1 } else { p - 1 };
+                    let mut names = Vec::new();
+                    let mut smps = Vec::new();
+                    for x in b"ACGT" {
+                        let mut a = g1.clone();
+                        a[p] = *x;
+                        let mut b = a.clone();
+                        b[q] = comp(b[q]);
+                        names.push(format!("as{}", *x as char));
+                        smps.push(vec![a, g2.clone()]);
+                        names.push(format!("as{}snp", *x as char));
+                        smps.push(vec![b]);
+                    }
+                    for rc in [true, false] {
+                        let t = Table::from_samples(k, rc, &names, &smps);
+                        for (am, rm) in [(false, false), (true, false), (false, true), (true, true)] {
+                            d.run(&MapCase { reference: reference.clone(), table: t.clone(), ambig_mask: am, repeat_mask: rm }, &format!("B: reference letter {} at {p}", *code as char));
+                        }
+                    }
+                    d.rep.corner("reference_letter_outside_ACGTN");
+                    if ctx.expired() {
+                        d.rep.capped = true;
                     }
                 }
             }
